@@ -363,3 +363,78 @@ package account
 //@   ensures [popped] (old(len(s.logs[ch.txhash])) == 1 ==> !has(s.logs, ch.txhash)) && (old(len(s.logs[ch.txhash])) > 1 ==> has(s.logs, ch.txhash) && len(s.logs[ch.txhash]) == old(len(s.logs[ch.txhash])) - 1)
 //@   ensures [others] forall h common.Hash :: h != ch.txhash ==> has(s.logs, h) == old(has(s.logs, h))
 //@   modifies s.logSize, entries(s.logs)
+
+// ---------------------------------------------------------------------------------------------
+// Account storage seen through the database, by address (used by the refund schedule, C20): adata[a][k] is the
+// content of slot k of the account at address a (trie-backed storage with its caches, trusted).
+//@ ghost adata (Array Bytes (Array Bytes Bytes))
+
+//@ func AccountDB.GetData
+//@   option trusted
+//@   ensures bytes(result) == @select(@select(ghost(adata), bytes(a)), old(bytes(key)))
+//@   modifies ghost(acct)
+
+//@ func AccountDB.SetData
+//@   option trusted
+//@   ensures ghost(adata) == @store(old(ghost(adata)), bytes(addr), @store(@select(old(ghost(adata)), bytes(addr)), old(bytes(key)), old(bytes(value))))
+//@   modifies ghost(adata), ghost(acct), ghost(stor), ghost(stver)
+
+// ---------------------------------------------------------------------------------------------
+// Process-local caches may not change results (C01). The node store is content addressed: what it returns for
+// a code hash is a function of the hash (codeOf/codeLen, trusted). The code cache and the code-size cache of
+// storageDB are modelled as ghost maps per cache object; the functions keep them COHERENT (every entry is the
+// code, or the code length, of the hash it is filed under), and their results are functions of the code hash
+// alone - whatever the caches contain, i.e. whatever this process evaluated before.
+//@ spec abstract fn codeOf(h Bytes) Bytes
+//@ spec abstract fn codeLen(h Bytes) int
+//@ ghost lrusz (Array Int (Array Bytes {int}))
+//@ ghost lruint (Array Int (Array Bytes Bool))
+//@ ghost lruallint (Array Int Bool)
+//@ ghost fcache (Array Int (Array Bytes Bytes))
+//@ ghost fclen (Array Int (Array Bytes {int}))
+
+//@ func ext_lruAddHashKey
+//@   option trusted extern=(*github.com/hashicorp/golang-lru.Cache).Add argtype=1:common.Hash
+//@   ensures istype(arg2, int) ==> ghost(lrusz) == @store(old(ghost(lrusz)), ref(arg0), @store(@select(old(ghost(lrusz)), ref(arg0)), bytes(arg1), unbox(arg2, int))) && ghost(lruint) == @store(old(ghost(lruint)), ref(arg0), @store(@select(old(ghost(lruint)), ref(arg0)), bytes(arg1), true)) && ghost(lruallint) == old(ghost(lruallint))
+//@   ensures !istype(arg2, int) ==> ghost(lrusz) == old(ghost(lrusz)) && ghost(lruint) == @store(old(ghost(lruint)), ref(arg0), @store(@select(old(ghost(lruint)), ref(arg0)), bytes(arg1), false)) && ghost(lruallint) == @store(old(ghost(lruallint)), ref(arg0), false)
+//@   modifies ghost(lrusz), ghost(lruint), ghost(lruallint)
+
+//@ func ext_lruGetHashKey
+//@   option trusted extern=(*github.com/hashicorp/golang-lru.Cache).Get argtype=1:common.Hash
+//@   ensures result1 && @select(ghost(lruallint), ref(arg0)) ==> istype(result0, int) && @select(@select(ghost(lruint), ref(arg0)), bytes(arg1)) && unbox(result0, int) == @select(@select(ghost(lrusz), ref(arg0)), bytes(arg1))
+//@   modifies nothing
+
+//@ func ext_fastcacheGet
+//@   option trusted extern=(*github.com/VictoriaMetrics/fastcache.Cache).Get
+//@   ensures len(result) == 0 || (bytes(result) == @select(@select(ghost(fcache), ref(arg0)), old(bytes(arg2))) && len(result) == @select(@select(ghost(fclen), ref(arg0)), old(bytes(arg2))))
+//@   modifies nothing
+
+//@ func ext_fastcacheSet
+//@   option trusted extern=(*github.com/VictoriaMetrics/fastcache.Cache).Set
+//@   ensures ghost(fcache) == @store(old(ghost(fcache)), ref(arg0), @store(@select(old(ghost(fcache)), ref(arg0)), old(bytes(arg1)), old(bytes(arg2))))
+//@   ensures ghost(fclen) == @store(old(ghost(fclen)), ref(arg0), @store(@select(old(ghost(fclen)), ref(arg0)), old(bytes(arg1)), len(arg2)))
+//@   modifies ghost(fcache), ghost(fclen)
+
+//@ func ext_nodeDatabaseNode
+//@   option trusted extern=(*com.tuntun.rangers/node/src/storage/trie.NodeDatabase).Node
+//@   ensures len(result0) == 0 || (bytes(result0) == codeOf(bytes(arg1)) && len(result0) == codeLen(bytes(arg1)))
+//@   modifies nothing
+
+//@ spec macro fn sizeCoherent(c Int) bool = forall h Bytes :: @select(@select(ghost(lruint), c), h) ==> @select(@select(ghost(lrusz), c), h) == codeLen(h)
+//@ spec macro fn codeCoherent(c Int) bool = forall h Bytes :: @select(@select(ghost(fclen), c), h) > 0 ==> @select(@select(ghost(fcache), c), h) == codeOf(h) && @select(@select(ghost(fclen), c), h) == codeLen(h)
+
+//@ func storageDB.ContractCode
+//@   property C01
+//@   requires db != nil && db.codeCache != nil && db.codeSizeCache != nil && db.db != nil
+//@   requires [coherent] sizeCoherent(ref(db.codeSizeCache)) && codeCoherent(ref(db.codeCache)) && @select(ghost(lruallint), ref(db.codeSizeCache))
+//@   ensures [code]     result1 == nil ==> len(result0) > 0 && bytes(result0) == codeOf(bytes(codeHash)) && len(result0) == codeLen(bytes(codeHash))
+//@   ensures [coherent] sizeCoherent(ref(db.codeSizeCache)) && codeCoherent(ref(db.codeCache)) && @select(ghost(lruallint), ref(db.codeSizeCache))
+//@   modifies ghost(lrusz), ghost(lruint), ghost(lruallint), ghost(fcache), ghost(fclen)
+
+//@ func storageDB.ContractCodeSize
+//@   property C01
+//@   requires db != nil && db.codeCache != nil && db.codeSizeCache != nil && db.db != nil
+//@   requires [coherent] sizeCoherent(ref(db.codeSizeCache)) && codeCoherent(ref(db.codeCache)) && @select(ghost(lruallint), ref(db.codeSizeCache))
+//@   ensures [size]     result1 == nil ==> result0 == codeLen(bytes(codeHash))
+//@   ensures [coherent] sizeCoherent(ref(db.codeSizeCache)) && codeCoherent(ref(db.codeCache)) && @select(ghost(lruallint), ref(db.codeSizeCache))
+//@   modifies ghost(lrusz), ghost(lruint), ghost(lruallint), ghost(fcache), ghost(fclen)
